@@ -164,6 +164,12 @@ def run_task(task):
                        "api": api, "reader": reader, "knobs": {"MAX_VBS_RECORD_LENGTH": task["max"]},
                        "records": [{"pos": [0, ln]}]}
                 run_one(scn, part)
+            # the same length with all-0x40 content (EBCDIC blanks look like block trailers / fill) through
+            # the list/bytes functions and the class API
+            for api, reader in (("func", "func"), ("write", "class")) if ln % 2 == 0 else (("func", "func"),):
+                run_one({"kind": "vbs_pipeline", "level": "vbs", "blocked": task["blocked"], "storage": "sim",
+                         "api": api, "reader": reader, "knobs": {"MAX_VBS_RECORD_LENGTH": task["max"]},
+                         "omit_kwargs": True, "records": [{"fill": [0x40, ln]}]}, part)
         part["runs"] += 1
     elif task["fam"] == "huge":
         # one call of write_many / a loop of write producing more than 4 MiB of framed bytes, and a
